@@ -57,3 +57,22 @@ Definition prologue_reads (reffetch_uncached_root : bool) (root0 : node)
            (plat_on_image : option (node * node)) : list node :=
   (if reffetch_uncached_root then [root0] else []) ++
   match plat_on_image with Some (m, cfgblob) => [m; cfgblob] | None => [] end.
+
+(* The root that copyGraph starts from, as Copy computes it: resolve the source reference, apply the
+   user's MapRoot if any, then WithTargetPlatform's selection if a platform was given (on a manifest
+   list: select_manifest over its entries; [entries_of] gives a manifest list's entries, None for a
+   node on which platform selection is not modelled).  None = Copy returns an error before copying. *)
+Definition copy_root (resolved : option node) (user_map : option (node -> option node))
+           (platform : option plat) (entries_of : node -> option (list (node * option plat))) : option node :=
+  let sel := fun r => match platform with
+                      | None => Some r
+                      | Some want => match entries_of r with
+                                     | Some es => select_manifest es want
+                                     | None => None
+                                     end
+                      end in
+  prologue resolved
+           (Some (fun r => match user_map with
+                           | None => sel r
+                           | Some f => match f r with Some r' => sel r' | None => None end
+                           end)).
